@@ -30,6 +30,25 @@ Theorem C03_any_entry_point_preserves : forall c e h es,
 Proof. exact any_entry_point_preserves. Qed.
 Print Assumptions C03_any_entry_point_preserves.
 
+(* Concurrent use: every chronicler method runs under the chronicler's mutex, so an execution with
+   concurrent callers is some sequence of the atomic steps above. For every such sequence (any mix
+   of Write batches and compaction entry points, any trigger decisions, any stale temps) the final
+   state is the initial one plus all written batches in lock order ... *)
+Theorem C03_any_interleaving_preserves : forall es c st,
+  state_of (c_fs c) = Some st -> steps_cover c es ->
+  exists st', state_of (c_fs (run_steps c es)) = Some st' /\
+    forall k, ilookup k (fst st') = ilookup k (spec_apply (fst st) (flat_map ep_batch es)).
+Proof. exact any_interleaving_preserves. Qed.
+Print Assumptions C03_any_interleaving_preserves.
+
+(* ... and that state depends, per key, only on the subsequence of writes to that key: writers that
+   own disjoint key sets get the same result under every interleaving (this is what the harness's
+   concurrent cases compare against). *)
+Theorem C03_write_order_per_key : forall k l ix,
+  ilookup k (spec_apply ix l) = ilookup k (spec_apply ix (filter (fun w : wr => fst w =? k) l)).
+Proof. exact spec_apply_lookup_filter. Qed.
+Print Assumptions C03_write_order_per_key.
+
 (* inline trigger: whatever maybeCompactInline and the compactor's own threshold decide *)
 Theorem C03_inline_trigger_sound : forall c batch go1 go2 perm h es,
   hyd (c_fs c) = Some (FGood h es) ->
